@@ -19,6 +19,7 @@ RULE = ('Parameter vectors for the bundled builders: alpha1, alpha2 in (0.05,0.9
         'SetEquationRightHandSide, SetExogenous and AddInitialCondition; solver tolerance 1e-9. The hand-coded '
         'ModelSIMiterative is driven through its attributes. Non-trivial: every parameter differs from the book '
         'calibration, the G path has >= 2 distinct values and initial wealth is non-zero. Distinct: sha1 of the spec.')
+RULE = RULE + (' Input shapes added after the seeded-change rounds (DESIGN.md section 8): ' + 'AfterTax(0) optionally unstated; paths replaced through Model.AddExogenous(sector code, ...); parameters supplied as exogenous series; G paths in which a level recurs.')
 ASSUMPTIONS = [
     'tolerance of the comparison: 1e-6*max(1,|v|)/(1-q) with q = alpha1*(1-theta) for the framework models (solver '
     'tolerance 1e-9, errors propagate through wealth); 0.002*(k+1)/(1-q) for the hand-coded model (its stop rule is 0.001), '
